@@ -40,7 +40,8 @@ CanonMul(t) ==
     /\ \A i \in 2..Len(t.a) :
          LET b == t.a[i].a[1] e == t.a[i].a[2]
          IN /\ ~((IsIntT(b) \/ IsRatT(b)) /\ IsIntT(e))
-            /\ ~IsIntVal(b, 0) /\ ~IsIntVal(b, 1)
+            \* (a factor 0**x with a non-numeric x is allowed: pow(0, x) stays unevaluated)
+            /\ ~(IsIntVal(b, 0) /\ IsNumT(e)) /\ ~IsIntVal(b, 1)
             /\ ~(IsNumT(e) /\ IsZeroT(e))
             \* a real coefficient other than +-1 is split off a product under a numeric
             \* power; a complex coefficient stays inside, e.g. ((1+2*I)*x)**(1/2)
